@@ -218,7 +218,7 @@ class Model:
       else:
         if t['id'] <= mx:
           mism.append(('SuggestTrials.fresh-id', f'new id {t["id"]} <= max {mx}'))
-        if t['meas'] or t['final'] is not None or t['md'] or t['reason']:
+        if t['meas'] or t['final'] is not None or t['reason']:  # (algorithms may attach metadata)
           mism.append(('SuggestTrials.new-trial-not-blank', f'{t}'))
         st['trials'][t['id']] = dict(t)
 
